@@ -14,6 +14,17 @@ import (
 
 func init() {
 	Checks["C02"] = checkC02
+	Replayers["C02/odd"] = func(data json.RawMessage) (bool, string) {
+		var f string
+		_ = json.Unmarshal(data, &f)
+		first := ""
+		oddViews(f, func(where, msg string) {
+			if msg != "" && first == "" {
+				first = msg + " at " + f + " " + where
+			}
+		})
+		return first != "", first
+	}
 	Replayers["C02/succ"] = func(data json.RawMessage) (bool, string) {
 		var d struct{ FEN, Move string }
 		_ = json.Unmarshal(data, &d)
@@ -166,6 +177,51 @@ func compareSuccessor(n *Node, before *board.Position, m board.Move, rm ref.Move
 	return ""
 }
 
+var oddPlacements = []string{
+	"4k3/8/8/8/8/8/7P/K3K3 w - - 0 1", "k3k3/7p/8/8/8/8/8/4K3 b - - 0 1", "K6K/8/8/3k4/8/8/8/K6K w - - 0 1",
+	"8/8/8/8/8/8/P6p/R6r w - - 0 1", "QQQQQQQQ/QQQQQQQQ/8/8/8/8/qqqqqqqq/kqqqqqqK w - - 0 1", "k7/8/8/8/8/8/8/K3K2R w K - 0 1",
+}
+
+// oddViews reports (where, msg) for the placement f and every successor to depth 2 the
+// implementation produces from it (msg == "": the views agree there).
+func oddViews(f string, report func(where, msg string)) {
+	pos, turn, _, _, err := fen.Decode(f)
+	if err != nil || pos == nil {
+		return
+	}
+	fromSets := func(p *board.Position) *ref.Pos {
+		r := &ref.Pos{EP: -1, White: true}
+		for c := board.ZeroColor; c < board.NumColors; c++ {
+			for pc := board.ZeroPiece; pc < board.NumPieces; pc++ {
+				for _, sq := range p.Piece(c, pc).ToSquares() {
+					v := bridge.RefPiece(pc)
+					if c == board.Black {
+						v = -v
+					}
+					r.Sq[bridge.RefSq(sq)] = v
+				}
+			}
+		}
+		return r
+	}
+	check := func(p *board.Position, where string) {
+		report(where, viewsSelfConsistent(p, fromSets(p)))
+	}
+	check(pos, "")
+	for _, side := range []board.Color{turn, turn.Opponent()} {
+		for _, m := range pos.PseudoLegalMoves(side) {
+			if sp, ok := pos.Move(m); ok {
+				check(sp, "after "+bridge.Text(m))
+				for _, m2 := range sp.PseudoLegalMoves(side.Opponent()) {
+					if sp2, ok := sp.Move(m2); ok {
+						check(sp2, "after "+bridge.Text(m)+" "+bridge.Text(m2))
+					}
+				}
+			}
+		}
+	}
+}
+
 func checkC02(c *harness.Check) {
 	mustAnchors(c)
 	c.Rule = "every (node, legal move) of the C01 spaces (BFS closures, chains arise because every node was produced by the implementation's own Move; plus systematic families): successor placement/rights/e.p. vs reference Make; square lookup vs per-piece/per-colour/occupancy/rotated views; IsAttacked for 2x64 squares and IsChecked vs reference ray walk; FEN of successor; parent value unchanged. distinct_nontrivial = distinct (move kind, rights-before, rights-after, e.p.-set) classes"
@@ -203,48 +259,13 @@ func checkC02(c *harness.Check) {
 	// none at all, a board full of queens): the rules say nothing about their moves, but every view
 	// of such a position - and of every successor the implementation itself produces from it - must
 	// still agree with every other view
-	for _, f := range []string{
-		"4k3/8/8/8/8/8/7P/K3K3 w - - 0 1", "k3k3/7p/8/8/8/8/8/4K3 b - - 0 1", "K6K/8/8/3k4/8/8/8/K6K w - - 0 1",
-		"8/8/8/8/8/8/P6p/R6r w - - 0 1", "QQQQQQQQ/QQQQQQQQ/8/8/8/8/qqqqqqqq/kqqqqqqK w - - 0 1", "k7/8/8/8/8/8/8/K3K2R w K - 0 1",
-	} {
-		pos, turn, _, _, err := fen.Decode(f)
-		if err != nil || pos == nil {
-			continue
-		}
-		fromSets := func(p *board.Position) *ref.Pos {
-			r := &ref.Pos{EP: -1, White: true}
-			for c := board.ZeroColor; c < board.NumColors; c++ {
-				for pc := board.ZeroPiece; pc < board.NumPieces; pc++ {
-					for _, sq := range p.Piece(c, pc).ToSquares() {
-						v := bridge.RefPiece(pc)
-						if c == board.Black {
-							v = -v
-						}
-						r.Sq[bridge.RefSq(sq)] = v
-					}
-				}
-			}
-			return r
-		}
-		check := func(p *board.Position, where string) {
+	for _, f := range oddPlacements {
+		oddViews(f, func(where, msg string) {
 			c.Evaluations.Add(1)
-			if msg := viewsSelfConsistent(p, fromSets(p)); msg != "" {
-				c.Violation(cc.sig("C02/odd-views", f+" "+where), msg+" at "+f+" "+where, "C02/note", f+" "+where)
+			if msg != "" {
+				c.Violation(cc.sig("C02/odd-views", f+" "+where), msg+" at "+f+" "+where, "C02/odd", f)
 			}
-		}
-		check(pos, "")
-		for _, side := range []board.Color{turn, turn.Opponent()} {
-			for _, m := range pos.PseudoLegalMoves(side) {
-				if sp, ok := pos.Move(m); ok {
-					check(sp, "after "+bridge.Text(m))
-					for _, m2 := range sp.PseudoLegalMoves(side.Opponent()) {
-						if sp2, ok := sp.Move(m2); ok {
-							check(sp2, "after "+bridge.Text(m)+" "+bridge.Text(m2))
-						}
-					}
-				}
-			}
-		}
+		})
 	}
 	c.Sample(map[string]any{"family": "corner pieces with full rights", "node": "r3k2r/8/8/8/8/8/8/R3K2R w KQkq - 0 1", "move": "a1a8"})
 	c.Finish()
